@@ -103,10 +103,12 @@ impl Tokens {
     fn code(&mut self) -> String {
         let i = self.n;
         self.n += 1;
-        let up = (b'A' + (i / (25 * 25 * 25) % 26) as u8) as char;
-        let a = (b'a' + (i / 625 % 25) as u8) as char;
-        let b = (b'a' + (i / 25 % 25) as u8) as char;
-        let c = (b'a' + (i % 25) as u8) as char;
+        // the fastest-changing digit comes first, so that neighbouring tokens
+        // differ in their first characters (helps diffs and searches)
+        let up = (b'A' + (i % 26) as u8) as char;
+        let a = (b'a' + (i / 26 % 25) as u8) as char;
+        let b = (b'a' + (i / 650 % 25) as u8) as char;
+        let c = (b'a' + (i / 16250 % 25) as u8) as char;
         let mut s = String::new();
         s.push(up);
         s.push(a);
